@@ -300,7 +300,16 @@ def synthetic_calls(run, ntables, per_con):
         run.tally("synthetic_constructors", "well-bounded" if len(good) == len(tb.cons) else "dropped-some")
         if not good:
             continue
-        types = list(tb.builtins) + list(tb.simple) + list(good)
+        import src.ir.ast as ast
+        # generic classes are offered as class declarations (their get_type() is a type constructor that the
+        # helper instantiates itself: nested calls), plus a few bare constructors (filtered out by the helper)
+        decls = [ast.ClassDeclaration(c.name, [], ast.ClassDeclaration.REGULAR, fields=[], functions=[],
+                                      type_parameters=list(c.type_parameters)) for c in good]
+        # (_construct_related_types handles a bound `Array<…>` only for lists of plain types: the generator never
+        # bounds a parameter by an array, `select_type(exclude_arrays=True)`)
+        array_bound = any("Array" in str(p.bound) for c in good for p in c.type_parameters if p.bound is not None)
+        types = list(tb.builtins) + list(tb.simple) + ([] if array_bound else decls) + list(good[:1])
+        run.tally("synthetic_type_lists", "plain-types" if array_bound else "with-class-declarations")
         rec = inst_lib.Recorder(top, limit=10 ** 9, origin="synthetic:" + lang)
         rec.install()
         try:
@@ -314,10 +323,11 @@ def synthetic_calls(run, ntables, per_con):
                     # pre-assignments: from a previous result (consistent), ground types (maybe not), or none
                     pre = None
                     q = rng.random()
-                    if q < 0.3:
+                    mine = [c for c in out[-40:] if c["con"] is con]
+                    if q < 0.12:
                         pre = {p: tb.ground(1, False) for p in ps if rng.random() < 0.4}
-                    elif q < 0.55 and out:
-                        prev = rng.choice(out[-20:])
+                    elif q < 0.6 and mine:
+                        prev = rng.choice(mine)
                         pre = {p: a for p, a in prev["sigma_obj"].items() if p in ps and rng.random() < 0.6}
                     elif q < 0.65:
                         pre = {p: tp.WildCardType(tb.ground(1, False), rng.choice([tp.Covariant, tp.Contravariant]))
@@ -338,7 +348,14 @@ def synthetic_calls(run, ntables, per_con):
                             targs, fn = None, "instantiate_parameterized_function"
                     except Exception as e:
                         nexc += 1
-                        run.tally("helper_exceptions", "%s" % type(e).__name__)
+                        import traceback
+                        tb_ = traceback.extract_tb(e.__traceback__)
+                        where = "%s:%s" % (tb_[-1].filename.rsplit("/", 1)[-1], tb_[-1].name)
+                        run.tally("helper_exceptions", "%s@%s" % (type(e).__name__, where))
+                        run.cov.setdefault("helper_exception_samples", {}).setdefault(
+                            "%s@%s" % (type(e).__name__, where),
+                            {"msg": str(e)[:200], "chain": ["%s:%s:%d" % (f.filename.rsplit("/", 1)[-1], f.name, f.lineno) for f in tb_[-6:]],
+                             "text": inst_lib.describe(ps, pre, vc, {}, None)})
                         continue
                     finally:
                         set_dis(old)
@@ -346,7 +363,7 @@ def synthetic_calls(run, ntables, per_con):
                     for rq in rec.requests[n0:]:
                         rq["meta"]["entry"] = fn
                     judge = inst_lib.py_judge(ps, sigma, targs, top, pre)
-                    out.append({"requests": rec.requests[n0:], "judge": judge, "sigma_obj": sigma, "fn": fn,
+                    out.append({"requests": rec.requests[n0:], "judge": judge, "sigma_obj": sigma, "fn": fn, "con": con,
                                 "text": inst_lib.describe(ps, pre, vc, sigma, targs)})
         finally:
             rec.uninstall()
@@ -377,8 +394,9 @@ def judge_requests(run, reqs, label):
                    "dis": rq["dis"], "text": meta.get("text")}, nontrivial=bounded or len(rq["pre"]) > 0)
         run.cov["traces_validated_against_impl"] += 1
         run.tally("ops", "inst.ok")
-        run.tally("inst_ok_" + label, "accepted" if a["r"] is True else "rejected")
-        if a["r"] is not True:
+        run.tally("inst_ok_" + label, "accepted" if a["r"] is True else "accepted-shape-only(inconsistent-requests)"
+                  if a["r"] == "shape-only" else "rejected")
+        if a["r"] is not True and a["r"] != "shape-only":
             nbad += 1
             sig = failure_signature(a["r"], meta)
             run.tally("inst_rejections", sig + "|" + meta.get("origin", "?"))
